@@ -1,17 +1,17 @@
 (* C17 — every operation preserves the invariant; the session is legal. *)
 From Coq Require Import ZArith NArith List Bool Arith Lia.
 From Falcon.gen Require Import ConstsC17.
-From Falcon.C17 Require Import Model Spec Proofs.
+From Falcon.C17 Require Import Model Spec Proofs ProofsStop.
 Import ListNotations.
 Open Scope Z_scope.
 
-(* Legal only looks at these fields *)
-Lemma legal_ext w w' :
-  Legal w -> trace w' = trace w -> st w' = st w -> flag w' = flag w -> handed w' = handed w ->
+(* Core only looks at these fields *)
+Lemma core_ext w w' :
+  Core w -> trace w' = trace w -> st w' = st w -> flag w' = flag w -> handed w' = handed w ->
   (pump w' = pump w \/ pump w' = false) ->
   (has_disc (queue w') = true \/ (exists c, hand w' = Some (CDisc c)) ->
    has_disc (queue w) = true \/ (exists c, hand w = Some (CDisc c))) ->
-  Legal w'.
+  Core w'.
 Proof.
   intros [m [Hm [Hst [Hfl Hdq]]]] Ht Hs Hf Hh Hp Hq. exists m.
   rewrite Ht, Hs, Hf, Hh. repeat split; auto.
@@ -19,9 +19,9 @@ Proof.
   destruct Hp as [->| ->]; auto.
 Qed.
 
-Lemma legal_stop w : Legal w -> Legal (set_pump false (set_hand None w)).
+Lemma core_stop w : Core w -> Core (set_pump false (set_hand None w)).
 Proof.
-  intro H. apply (legal_ext w); auto. cbn. intros [A|[c A]]; [left; exact A | discriminate].
+  intro H. apply (core_ext w); auto. cbn. intros [A|[c A]]; [left; exact A | discriminate].
 Qed.
 
 Lemma has_disc_app a b : has_disc (a ++ b) = has_disc a || has_disc b.
@@ -54,7 +54,7 @@ Proof.
       injection A as ->. right. cbn. discriminate.
 Qed.
 
-Lemma advance_legal c w : Legal w -> Legal (advance c w).
+Lemma advance_core c w : Core w -> Core (advance c w).
 Proof.
   intros H. unfold advance. destruct (pump w) eqn:Epu; [|exact H].
   set (w1 := match hand w with
@@ -62,11 +62,11 @@ Proof.
                          then set_hand None (set_queue (queue w ++ [e]) w) else w
              | None => w
              end).
-  assert (H1 : Legal w1 /\ pump w1 = true).
+  assert (H1 : Core w1 /\ pump w1 = true).
   { subst w1. destruct (hand w) as [e|] eqn:Eh; [|auto].
     destruct (length (queue w) <? cap c)%nat; [|auto].
     split; [|exact Epu].
-    apply (legal_ext w); auto. cbn. intros [A|[c0 A]]; [|discriminate].
+    apply (core_ext w); auto. cbn. intros [A|[c0 A]]; [|discriminate].
     rewrite has_disc_app in A. cbn in A. rewrite orb_false_r in A.
     apply orb_true_iff in A as [A|A]; [left; exact A|].
     right. destruct e; try discriminate. eauto. }
@@ -83,8 +83,8 @@ Proof.
     destruct f; [apply orb_true_r | congruence].
 Qed.
 
-Lemma legal_after_send_ok w1 w s' m :
-  Legal w -> flag w1 = flag w -> handed w1 = handed w -> queue w1 = queue w ->
+Lemma core_after_send_ok w1 w s' m :
+  Core w -> flag w1 = flag w -> handed w1 = handed w -> queue w1 = queue w ->
   hand w1 = hand w -> st w1 = s' ->
   mon_run (MConn false) (trace w1) = Some m ->
   match s' with
@@ -92,34 +92,34 @@ Lemma legal_after_send_ok w1 w s' m :
   | Accepted => exists t, m = MOpen t
   | Closed => closedish m = true \/ handed w = true
   end ->
-  Legal w1.
+  Core w1.
 Proof.
   intros [m0 [_ [_ [Hfl Hdq]]]] Hf Hh Hq Hha Hs Hm Hc. exists m.
   rewrite Hs, Hf, Hh, Hq, Hha. repeat split; auto. destruct s'; auto. destruct Hc.
 Qed.
 
-Lemma op_send_legal e w r w' :
-  Legal w -> st w = Accepted -> fits Accepted e ->
+Lemma op_send_core e w r w' :
+  Core w -> st w = Accepted -> fits Accepted e ->
   match e with EText _ | EBytes _ => True | _ => False end ->
-  op_send e w = (r, w') -> Legal w'.
+  op_send e w = (r, w') -> Core w'.
 Proof.
   intros H Hst Hfit He Hs. unfold op_send in Hs.
   destruct (do_send e w) as [x w1] eqn:Ed.
   assert (Hfit' : fits (st w) e) by (rewrite Hst; exact Hfit).
-  pose proof (do_send_legal _ _ _ _ H Hfit' Ed) as [Hf [Hh [Hp [Hq [Hha [Hcl Hx]]]]]].
+  pose proof (do_send_core _ _ _ _ H Hfit' Ed) as [Hf [Hh [Hp [Hq [Hha [Hcl Hx]]]]]].
   destruct x as [y|]; injection Hs as <- <-.
   - destruct Hx as [L _]. exact L.
   - destruct Hx as [Hs1 [_ [m [Hm Hme]]]].
-    eapply (legal_after_send_ok w1 w Accepted m); eauto; [congruence|].
-    destruct e; try destruct He; exact Hme.
+    eapply (core_after_send_ok w1 w Accepted m); eauto; [congruence|].
+    destruct e; try destruct He; exact (proj2 Hme).
 Qed.
 
-Lemma legal_ext2 w w' :
-  Legal w -> trace w' = trace w -> st w' = st w -> flag w' = flag w ->
+Lemma core_ext2 w w' :
+  Core w -> trace w' = trace w -> st w' = st w -> flag w' = flag w ->
   (handed w = true -> handed w' = true) -> pump w' = pump w ->
   (has_disc (queue w') = true \/ (exists c, hand w' = Some (CDisc c)) ->
    has_disc (queue w) = true \/ (exists c, hand w = Some (CDisc c)) \/ handed w' = true) ->
-  Legal w'.
+  Core w'.
 Proof.
   intros [m [Hm [Hst [Hfl Hdq]]]] Ht Hs Hf Hh Hp Hq. exists m.
   rewrite Ht, Hs, Hf. repeat split; auto.
@@ -129,47 +129,83 @@ Proof.
   - intro A. destruct (Hq A) as [B|[B|B]]; auto.
 Qed.
 
-Lemma legal_closed_by_disc w co :
-  Legal w -> handed w = true ->
-  Legal (set_st Closed (set_ccode co w)).
+Lemma core_closed_by_disc w co :
+  Core w -> handed w = true ->
+  Core (set_st Closed (set_ccode co w)).
 Proof.
   intros [m [Hm [Hst [Hfl Hdq]]]] Hh. exists m. cbn. repeat split; auto.
 Qed.
 
-Lemma op_recv_legal k c w r w' : Legal w -> op_recv k c w = (r, w') -> Legal w'.
+Lemma core_closed_by w co :
+  Core w -> handed w = true \/ mon_run (MConn false) (trace w) = Some (MOpen true) ->
+  Core (set_st Closed (set_ccode co w)).
 Proof.
-  intros H Hs. unfold op_recv in Hs.
+  intros [m [Hm [Hst [Hfl Hdq]]]] Hh. exists m. cbn. repeat split; auto.
+  destruct Hh as [A|A]; [right; exact A|]. left. rewrite Hm in A. injection A as ->. reflexivity.
+Qed.
+
+Lemma op_recv_core k c w r w' : Core w -> Stop c w -> op_recv true k c w = (r, w') -> Core w'.
+Proof.
+  intros H HS Hs. unfold op_recv in Hs.
   destruct (require_accepted w) eqn:Er; [injection Hs as <- <-; exact H|].
-  assert (L : forall x w1, do_receive c w = (x, w1) -> Legal w1).
+  assert (Hst : st w = Accepted) by (unfold require_accepted in Er; destruct (st w); congruence).
+  assert (L : forall x w1, do_receive true c w = (x, w1) -> Core w1).
   { clear Hs. intros x w1 Hd. unfold do_receive, next_event in Hd.
-    destruct (cap c =? 0)%nat.
+    destruct (cap c =? 0)%nat eqn:Ecap.
     - destruct (client w) as [|e rest] eqn:Ecl.
       + injection Hd as <- <-. exact H.
-      + assert (H1 : Legal (set_handed (handed w || match e with CDisc _ => true | _ => false end)
+      + assert (H1 : Core (set_handed (handed w || match e with CDisc _ => true | _ => false end)
                                        (set_client rest w))).
-        { apply (legal_ext2 w); auto; cbn.
+        { apply (core_ext2 w); auto; cbn.
           - intro A. rewrite A. reflexivity.
           - intros A. destruct A as [A|A]; auto. }
         destruct e; try (injection Hd as <- <-; exact H1).
-        injection Hd as <- <-. apply legal_closed_by_disc; [exact H1|]. cbn. apply orb_true_r.
-    - destruct (negb (pump w)); [injection Hd as <- <-; exact H|].
-      set (w0 := match queue w with [] => advance c w | _ => w end) in *.
-      assert (H0 : Legal w0) by (subst w0; destruct (queue w); [apply advance_legal|]; exact H).
-      clearbody w0. destruct (queue w0) as [|e rest] eqn:Eq.
-      + injection Hd as <- <-. exact H0.
-      + assert (H1 : Legal (set_queue rest w0)).
-        { apply (legal_ext2 w0); auto; cbn. intros [A|A]; [|auto].
-          left. rewrite Eq. cbn. rewrite A. apply orb_true_r. }
-        destruct e; try (injection Hd as <- <-; exact H1).
-        injection Hd as <- <-. apply legal_closed_by_disc; [exact H1|]. cbn.
-        destruct H0 as [m [_ [_ [_ Hdq]]]]. apply Hdq. left. rewrite Eq. reflexivity. }
-  destruct (do_receive c w) as [x w1] eqn:Ed. specialize (L _ _ eq_refl).
+        injection Hd as <- <-. apply core_closed_by_disc; [exact H1|]. cbn. apply orb_true_r.
+    - destruct (pump w) eqn:Epu; cbn in Hd.
+      + set (w0 := match queue w with [] => advance c w | _ => w end) in *.
+        assert (H0 : Core w0) by (subst w0; destruct (queue w); [apply advance_core|]; exact H).
+        clearbody w0. destruct (queue w0) as [|e rest] eqn:Eq.
+        * injection Hd as <- <-. exact H0.
+        * assert (H1 : Core (set_queue rest w0)).
+          { apply (core_ext2 w0); auto; cbn. intros [A|A]; [|auto].
+            left. rewrite Eq. cbn. rewrite A. apply orb_true_r. }
+          destruct e; try (injection Hd as <- <-; exact H1).
+          injection Hd as <- <-. apply core_closed_by_disc; [exact H1|]. cbn.
+          destruct H0 as [m [_ [_ [_ Hdq]]]]. apply Hdq. left. rewrite Eq. reflexivity.
+      + (* stopped receiver (repaired code) *)
+        destruct (queue w) as [|e rest] eqn:Eq.
+        * injection Hd as <- <-. apply core_closed_by; [exact H|]. apply HS; auto.
+        * assert (H1 : Core (set_queue rest w)).
+          { apply (core_ext2 w); auto; cbn. intros [A|A]; [|auto].
+            left. rewrite Eq. cbn. rewrite A. apply orb_true_r. }
+          destruct e; try (injection Hd as <- <-; exact H1).
+          injection Hd as <- <-. apply core_closed_by_disc; [exact H1|]. cbn.
+          destruct H as [m [_ [_ [_ Hdq]]]]. apply Hdq. left. rewrite Eq. reflexivity. }
+  destruct (do_receive true c w) as [x w1] eqn:Ed. specialize (L _ _ eq_refl).
   destruct x as [[e|x]|u]; injection Hs as <- <-; exact L.
 Qed.
 
-Lemma run_op_legal hr c o w r w' : Legal w -> run_op true hr c o w = (r, w') -> Legal w'.
+Lemma op_close_core hr c c0 reason w r w' :
+  Core w -> op_close true hr c c0 reason w = (r, w') -> Core w'.
 Proof.
-  intros H Hs. destruct o; cbn in Hs.
+  intros H Hs.
+  unfold op_close in Hs. pose proof (core_stop _ H) as H0.
+  set (w0 := set_pump false (set_hand None w)) in *.
+  destruct (code_check c0) as [co|x]; [|injection Hs as <- <-; exact H].
+  destruct (is_closed w0) eqn:Ec; [injection Hs as <- <-; exact H0|].
+  destruct (do_send _ w0) as [x w1] eqn:Ed.
+  assert (Hfit : fits (st w0) (EClose (or1000 co) ((reason || hr (or1000 co)) && reason_ok c))).
+  { unfold is_closed in Ec. destruct (st w0); [exact I | exact I | discriminate]. }
+  pose proof (do_send_core _ _ _ _ H0 Hfit Ed) as [Hf [Hh [Hp [Hq [Hha [Hcl Hx]]]]]].
+  destruct x as [y|]; injection Hs as <- <-.
+  + destruct Hx as [L _]. exact L.
+  + destruct Hx as [Hs1 [_ [m [Hm Hme]]]].
+    eapply (core_after_send_ok _ w0 Closed m); eauto. left. rewrite Hme. reflexivity.
+Qed.
+
+Lemma run_op_core hr c o w r w' : Core w -> Stop c w -> run_op true hr c o w = (r, w') -> Core w'.
+Proof.
+  intros H HS Hs. destruct o; cbn in Hs.
   - (* accept *)
     unfold op_accept in Hs.
     destruct (is_closed w) eqn:Ec; [injection Hs as <- <-; exact H|].
@@ -181,59 +217,48 @@ Proof.
          | context [do_send ?e ?ww] =>
            destruct (do_send e ww) as [x w1] eqn:Ed;
            assert (Hfit : fits (st ww) e) by (rewrite Est; exact I);
-           pose proof (do_send_legal _ _ _ _ H Hfit Ed) as [Hf [Hh [Hp [Hq [Hha [Hcl Hx]]]]]];
+           pose proof (do_send_core _ _ _ _ H Hfit Ed) as [Hf [Hh [Hp [Hq [Hha [Hcl Hx]]]]]];
            destruct x as [y|]; injection Hs as <- <-;
            [destruct Hx as [L _]; exact L|];
            destruct Hx as [Hs1 [_ [m [Hm Hme]]]];
-           eapply (legal_after_send_ok _ ww Accepted m); eauto; cbn; eauto
+           eapply (core_after_send_ok _ ww Accepted m); eauto; cbn; eauto
          end.
-  - (* close *)
-    unfold op_close in Hs. pose proof (legal_stop _ H) as H0.
-    set (w0 := set_pump false (set_hand None w)) in *.
-    destruct (code_check c0) as [co|x]; [|injection Hs as <- <-; exact H0].
-    destruct (is_closed w0) eqn:Ec; [injection Hs as <- <-; exact H0|].
-    destruct (do_send _ w0) as [x w1] eqn:Ed.
-    assert (Hfit : fits (st w0) (EClose (or1000 co) ((reason || hr (or1000 co)) && reason_ok c))).
-    { unfold is_closed in Ec. destruct (st w0); [exact I | exact I | discriminate]. }
-    pose proof (do_send_legal _ _ _ _ H0 Hfit Ed) as [Hf [Hh [Hp [Hq [Hha [Hcl Hx]]]]]].
-    destruct x as [y|]; injection Hs as <- <-.
-    + destruct Hx as [L _]. exact L.
-    + destruct Hx as [Hs1 [_ [m [Hm Hme]]]].
-      eapply (legal_after_send_ok _ w0 Closed m); eauto. left. rewrite Hme. reflexivity.
+  - (* close *) eapply op_close_core; eauto.
   - (* send_text *)
     unfold op_send_text in Hs. destruct (require_accepted w) eqn:Er; [injection Hs as <- <-; exact H|].
     assert (Hst : st w = Accepted) by (unfold require_accepted in Er; destruct (st w); congruence).
     destruct p; [|injection Hs as <- <-; exact H].
-    eapply op_send_legal; eauto; exact I.
+    eapply op_send_core; eauto; exact I.
   - unfold op_send_data in Hs. destruct (require_accepted w) eqn:Er; [injection Hs as <- <-; exact H|].
     assert (Hst : st w = Accepted) by (unfold require_accepted in Er; destruct (st w); congruence).
     destruct p; [|injection Hs as <- <-; exact H].
-    eapply op_send_legal; eauto; exact I.
+    eapply op_send_core; eauto; exact I.
   - unfold op_send_media in Hs. destruct (require_accepted w) eqn:Er; [injection Hs as <- <-; exact H|].
     assert (Hst : st w = Accepted) by (unfold require_accepted in Er; destruct (st w); congruence).
-    destruct bin; eapply op_send_legal; eauto; exact I.
-  - eapply op_recv_legal; eauto.
-  - eapply op_recv_legal; eauto.
-  - eapply op_recv_legal; eauto.
+    destruct bin; eapply op_send_core; eauto; exact I.
+  - eapply op_recv_core; eauto.
+  - eapply op_recv_core; eauto.
+  - eapply op_recv_core; eauto.
   - injection Hs as <- <-. exact H.
-  - injection Hs as <- <-. apply advance_legal. exact H.
+  - injection Hs as <- <-. apply advance_core. exact H.
 Qed.
 
-Lemma run_script_legal hr c sc : forall w rs e w',
-  Legal w -> run_script true hr c sc w = (rs, e, w') -> Legal w'.
+Lemma run_script_core hr c sc : forall w rs e w',
+  Core w -> Stop c w -> run_script true hr c sc w = (rs, e, w') -> Core w' /\ Stop c w'.
 Proof.
-  induction sc as [|[o catch] tl IH]; intros w rs e w' H Hs; cbn in Hs.
-  - injection Hs as <- <- <-. exact H.
+  induction sc as [|[o catch] tl IH]; intros w rs e w' H HS Hs; cbn in Hs.
+  - injection Hs as <- <- <-. auto.
   - destruct (run_op true hr c o w) as [r w1] eqn:Eo.
-    pose proof (run_op_legal _ _ _ _ _ _ H Eo) as H1.
+    pose proof (run_op_core _ _ _ _ _ _ H HS Eo) as H1.
+    pose proof (run_op_stop _ _ _ _ _ _ H HS Eo) as S1.
     destruct r.
     + destruct (run_script true hr c tl w1) as [[rs2 e2] w2] eqn:Er.
       injection Hs as <- <- <-. eapply IH; eauto.
     + destruct catch.
       * destruct (run_script true hr c tl w1) as [[rs2 e2] w2] eqn:Er.
         injection Hs as <- <- <-. eapply IH; eauto.
-      * injection Hs as <- <- <-. exact H1.
-    + injection Hs as <- <- <-. exact H1.
+      * injection Hs as <- <- <-. auto.
+    + injection Hs as <- <- <-. auto.
 Qed.
 
 (* a close has been sent or attempted, or the connection is lost, or the server has handed
@@ -241,7 +266,7 @@ Qed.
 Definition Done (w : ws) : Prop :=
   exists m, mon_run (MConn false) (trace w) = Some m /\ (closedish m = true \/ handed w = true).
 
-Lemma legal_closed_done w : Legal w -> is_closed w = true -> Done w.
+Lemma core_closed_done w : Core w -> is_closed w = true -> Done w.
 Proof.
   intros [m [Hm [Hst [Hfl Hdq]]]] Hc. exists m. split; [exact Hm|].
   unfold is_closed in Hc. destruct (st w); auto.
@@ -250,29 +275,29 @@ Proof.
 Qed.
 
 Lemma op_close_done hr c ca reason w r w' :
-  Legal w -> bad_code ca = false -> op_close true hr c ca reason w = (r, w') ->
-  Legal w' /\ Done w'.
+  Core w -> bad_code ca = false -> op_close true hr c ca reason w = (r, w') ->
+  Core w' /\ Done w'.
 Proof.
-  intros H Hb Hs. pose proof (run_op_legal hr c (OClose ca reason) w r w' H Hs) as L.
+  intros H Hb Hs. pose proof (op_close_core hr c ca reason w r w' H Hs) as L.
   split; [exact L|].
-  unfold op_close in Hs. pose proof (legal_stop _ H) as H0.
+  unfold op_close in Hs. pose proof (core_stop _ H) as H0.
   set (w0 := set_pump false (set_hand None w)) in *.
   destruct (code_check_good _ Hb) as [co Eco]. rewrite Eco in Hs.
   destruct (is_closed w0) eqn:Ec.
-  { injection Hs as <- <-. apply legal_closed_done; assumption. }
+  { injection Hs as <- <-. apply core_closed_done; assumption. }
   destruct (do_send _ w0) as [x w1] eqn:Ed.
   assert (Hfit : fits (st w0) (EClose (or1000 co) ((reason || hr (or1000 co)) && reason_ok c))).
   { unfold is_closed in Ec. destruct (st w0); [exact I | exact I | discriminate]. }
-  pose proof (do_send_legal _ _ _ _ H0 Hfit Ed) as [Hf [Hh [Hp [Hq [Hha [Hcl Hx]]]]]].
+  pose proof (do_send_core _ _ _ _ H0 Hfit Ed) as [Hf [Hh [Hp [Hq [Hha [Hcl Hx]]]]]].
   destruct x as [y|]; injection Hs as <- <-.
   - destruct Hx as [L1 [Hc|[_ [_ [m [Hm Hcm]]]]]].
-    + apply legal_closed_done; [exact L1|]. unfold is_closed. rewrite Hc. reflexivity.
+    + apply core_closed_done; [exact L1|]. unfold is_closed. rewrite Hc. reflexivity.
     + exists m. auto.
   - destruct Hx as [_ [_ [m [Hm Hmc]]]]. exists m. cbn. subst m. auto.
 Qed.
 
 Lemma done_stable_close hr c ca reason w r w' :
-  Legal w -> Done w -> op_close true hr c ca reason w = (r, w') -> Done w'.
+  Core w -> Done w -> op_close true hr c ca reason w = (r, w') -> Done w'.
 Proof.
   intros H D Hs. destruct (bad_code ca) eqn:Hb.
   - unfold op_close in Hs. rewrite (code_check_bad _ Hb) in Hs. injection Hs as <- <-.
@@ -302,19 +327,22 @@ Qed.
 Lemma require_accepted_exc w x : require_accepted w = Some x -> not_http x.
 Proof. unfold require_accepted. destruct (st w); intro H; try discriminate; injection H as <-; exact I. Qed.
 
-Lemma op_recv_exc k c w x w' : op_recv k c w = (Raise x, w') -> not_http x.
+Lemma op_recv_exc f k c w x w' : op_recv f k c w = (Raise x, w') -> not_http x.
 Proof.
   unfold op_recv. destruct (require_accepted w) eqn:E.
   - intro H. injection H as <- <-. eapply require_accepted_exc; eauto.
-  - destruct (do_receive c w) as [[[e|y]|u] w1] eqn:Ed; intro H; try discriminate.
+  - destruct (do_receive f c w) as [[[e|y]|u] w1] eqn:Ed; intro H; try discriminate.
     + destruct k as [|[|k]]; destruct e; try discriminate; injection H as <- <-; exact I.
     + injection H as <- <-. unfold do_receive, next_event in Ed.
       destruct (cap c =? 0)%nat.
       * destruct (client w) as [|e r]; [discriminate|].
         destruct e; try discriminate. injection Ed as <- <-. exact I.
-      * destruct (negb (pump w)); [injection Ed as <- <-; exact I|].
-        destruct (queue _) as [|e r]; [discriminate|].
-        destruct e; try discriminate. injection Ed as <- <-. exact I.
+      * destruct (negb (pump w)).
+        -- destruct f; [|injection Ed as <- <-; exact I].
+           destruct (queue w) as [|e r]; [injection Ed as <- <-; exact I|].
+           destruct e; try discriminate. injection Ed as <- <-. exact I.
+        -- destruct (queue _) as [|e r]; [discriminate|].
+           destruct e; try discriminate. injection Ed as <- <-. exact I.
 Qed.
 
 Lemma run_op_exc f hr c o w x w' :
@@ -386,14 +414,14 @@ Proof.
 Qed.
 
 Lemma handle_exception_done hr c x w e w' :
-  Legal w -> raises_ok x -> handle_exception true hr c x w = (e, w') -> Legal w' /\ Done w'.
+  Core w -> raises_ok x -> handle_exception true hr c x w = (e, w') -> Core w' /\ Done w'.
 Proof.
   intros H Hr Hs. unfold handle_exception in Hs.
-  assert (CL : forall e w', cleanup true hr c w = (e, w') -> Legal w' /\ Done w').
+  assert (CL : forall e w', cleanup true hr c w = (e, w') -> Core w' /\ Done w').
   { clear Hs Hr e w'. intros e w' Hs. unfold cleanup in Hs.
     destruct (op_close true hr c (CInt (err_code c)) false w) as [r w1] eqn:E1.
     destruct (bad_code (CInt (err_code c))) eqn:Hb.
-    - pose proof (run_op_legal hr c (OClose (CInt (err_code c)) false) w r w1 H E1) as L1.
+    - pose proof (op_close_core hr c (CInt (err_code c)) false w r w1 H E1) as L1.
       unfold op_close in E1. rewrite (code_check_bad _ Hb) in E1. injection E1 as <- <-.
       rewrite (code_check_bad _ Hb) in Hs.
       destruct (op_close true hr c (CInt fallback_ws_error_code) false _) as [r2 w2] eqn:E2.
@@ -428,7 +456,7 @@ Proof.
   - rewrite A. rewrite orb_true_r. reflexivity.
 Qed.
 
-Lemma legal_stuck_ok w : Legal w -> session_ok (trace w) Stuck (handed w) = true.
+Lemma core_stuck_ok w : Core w -> session_ok (trace w) Stuck (handed w) = true.
 Proof. intros [m [Hm _]]. unfold session_ok. rewrite Hm. reflexivity. Qed.
 
 Transparent mon_run.
@@ -437,7 +465,7 @@ Proof. destruct k; unfold session_ok; cbn; rewrite ?orb_true_r; reflexivity. Qed
 Opaque mon_run.
 
 Lemma session_tail hr c (rs : list result) e2 w2 (rs' : list result) e' w' :
-  Legal w2 -> (forall x, e2 = Raised x -> raises_ok x) ->
+  Core w2 -> (forall x, e2 = Raised x -> raises_ok x) ->
   match e2 with
   | Returned =>
     match op_close true hr c CNone false w2 with
@@ -467,7 +495,7 @@ Proof.
     injection Hs as <- <- <-.
     destruct (handle_exception_done _ _ _ _ _ _ L2 (Hr2 _ eq_refl) E3) as [_ D3].
     apply done_session_ok. exact D3.
-  - injection Hs as <- <- <-. apply legal_stuck_ok. exact L2.
+  - injection Hs as <- <- <-. apply core_stuck_ok. exact L2.
 Qed.
 
 Theorem session_legal hr c cok mw rt cl fl rs e w :
@@ -480,12 +508,13 @@ Proof.
   { unfold attempt, ws0 in Hs. cbn in Hs.
     destruct fl as [|k fl]; cbn in Hs; injection Hs as <- <- <-; cbn; apply connect_fail_ok. }
   destruct (run_script true hr c mw (ws0 cl fl)) as [[rs1 e1] w1] eqn:E1.
-  pose proof (run_script_legal _ _ _ _ _ _ _ (legal_init cl fl) E1) as L1.
+  assert (S0 : Stop c (ws0 cl fl)) by (intro A; discriminate).
+  pose proof (run_script_core _ _ _ _ _ _ _ (core_init cl fl) S0 E1) as [L1 S1].
   destruct e1.
   - destruct rt as [sc| |].
     + destruct (run_script true hr c sc w1) as [[rs2 e2] w2] eqn:E2.
       eapply (session_tail hr c (rs1 ++ rs2) e2 w2); [| |exact Hs].
-      * eapply run_script_legal; eauto.
+      * eapply run_script_core; eauto.
       * intros x ->. eapply run_script_raises; eauto.
     + eapply (session_tail hr c rs1 (Raised (XHTTPError 404)) w1); [exact L1| |exact Hs].
       intros x Hx. injection Hx as <-. reflexivity.
@@ -494,4 +523,12 @@ Proof.
   - eapply (session_tail hr c rs1 (Raised x) w1); [exact L1| |exact Hs].
     intros y Hy. injection Hy as <-. eapply run_script_raises; eauto.
   - eapply (session_tail hr c rs1 Stuck w1); [exact L1| |exact Hs]. discriminate.
+Qed.
+
+Lemma legal_init c cl fl : Legal c (ws0 cl fl).
+Proof. split; [apply core_init | intro A; discriminate]. Qed.
+
+Theorem run_op_legal hr c o w r w' : Legal c w -> run_op true hr c o w = (r, w') -> Legal c w'.
+Proof.
+  intros [H HS] Hs. split; [eapply run_op_core; eauto | eapply run_op_stop; eauto].
 Qed.
